@@ -10,4 +10,4 @@ ASSUMPTIONS = ["A-CRYPTO: ChaCha20-Poly1305 idealised: decrypt(nonce, c) returns
 
 def targets(eng):
     return noise.targets_for(eng, ["_handle_error", "close", "_handle_error_and_close", "_handle_hello", "_error_on_incorrect_preamble", "_handle_handshake",
-                                   "_handle_frame", "_handle_closed", "_decode_noise_psk", "_setup_proto", "plain._error_on_incorrect_preamble", "__init__", "connection_lost"], ["C04"])
+                                   "_handle_frame", "_handle_closed", "data_received", "lemmas", "_decode_noise_psk", "_setup_proto", "plain._error_on_incorrect_preamble", "__init__", "connection_lost"], ["C04"])
